@@ -36,7 +36,8 @@ class C10(framework.PropertyCheck):
     rule = ('totality: random strings over the language alphabet, grammar-generated texts and their mutations (delete/insert/replace/truncate), '
             'length<=200; literals: integers up to 300 bits in decimal (signed), 0x and 0b, at top level, inside lists, after quote, as @ offset '
             'and as slice bound; strings over printable characters plus the supported escapes; layouts: blanks, newlines, tabs and ;comments inserted '
-            'at token boundaries; trailing garbage after a complete expression; shebang line for program files; non-trivial = the text is '
+            'at token boundaries; trailing garbage after a complete expression; shebang line for program files; texts with macro calls read again after '
+            'an evaluation of the same text (the denotation is a function of the text); non-trivial = the text is '
             'accepted and contains a literal, or is rejected after at least one complete token')
     assumptions = ['ASCII plus the section sign and a few Latin-1 characters; Python\'s Unicode-aware \\w \\d \\s classes are outside the model',
                    'the float denotation is Python\'s float(text) (compared by IEEE bits)']
@@ -68,6 +69,13 @@ class C10(framework.PropertyCheck):
                 yield {'k': 'lit', 'tok': tok, 'v': v, 'pos': pos}
             elif k == 3 and i % 32 == 3:
                 yield {'k': 'bool', 'tok': rng.choice(['#t', '#f', 'true', 'false']), 'pos': rng.choice(['top', 'list', 'quote', 'offset', 'slice', 'nested'])}
+            elif k == 3 and i % 32 == 11:
+                # what a text denotes does not depend on what was read or evaluated before
+                a, b = gen_reader.join(g.sexpr(rng.randint(0, 2))), gen_reader.join(g.sexpr(rng.randint(0, 2)))
+                lit, _v = g.int_tok()
+                yield {'k': 'reread', 's': rng.choice([f'(when #t {lit})', f'(unless #f {lit} {a})', f'(when {a} {b})', f'(list (when #t {lit}) (unless #f 2))',
+                                                      f'(cond [#f 1] [else {lit}])', f"(for/list [e9 '(1 2)] (+ e9 {lit}))", f'(do (inc v9) {a})',
+                                                      f'(let ([v9 {lit}]) (when v9 (inc v9)))', f'(+ {lit} 1)', f"'({lit} {a})"])}
             elif k == 3 and i % 32 == 19:
                 tok, v = g.int_tok()
                 yield {'k': 'evaltop', 'tok': rng.choice([tok, '0', '0x0', '0b000', '#f', '#t', '""', '"s"', 'false', '0.0', '1.5'])}
@@ -83,7 +91,7 @@ class C10(framework.PropertyCheck):
                 yield {'k': 'shebang', 'toks': [g.sexpr(2) for _ in range(rng.randint(1, 3))], 'seed': rng.randrange(1 << 30)}
 
     def steps(self, case):
-        if case['k'] == 'shebang':
+        if case['k'] in ('shebang', 'reread'):
             return None
         return [('read', t) for t in self.texts(case)]
 
@@ -118,6 +126,35 @@ class C10(framework.PropertyCheck):
                 r = read_many(t)
                 if r[0] == 'other':
                     return {'what': 'reader raised an exception other than the documented parse error', 'text': t, 'exception': r[1], 'entry': 'read_wal_sexprs'}
+        if k == 'reread':
+            from wal.reader import read_wal_sexpr
+            from wal.ast_defs import WList
+            t = case['s']
+            first = read_one(t)
+            if first[0] == 'other':
+                return {'what': 'reader raised an exception other than the documented parse error', 'text': t, 'exception': first[1]}
+            if first[0] != 'ok':
+                return None
+            w = impl.fresh()
+            try:
+                w.eval_str(t)
+            except BaseException:  # noqa: BLE001
+                pass
+            second = read_one(t)
+            if second != first:
+                return {'what': 'the same text reads as a different expression after it has been evaluated once', 'text': t,
+                        'first_read': first, 'read_after_evaluation': second}
+            tree = read_wal_sexpr(t)
+            if isinstance(tree, (list, WList)) and len(tree) > 0:
+                try:
+                    tree[0] = 'edited by the caller'
+                except BaseException:  # noqa: BLE001
+                    pass
+            third = read_one(t)
+            if third != first:
+                return {'what': 'the same text reads as a different expression after a caller edited the tree of an earlier read', 'text': t,
+                        'first_read': first, 'later_read': third}
+            return None
         if k == 'shebang':
             body = '\n'.join(gen_reader.join(t, random.Random(case['seed'] + i)) for i, t in enumerate(case['toks']))
             a, b = read_many(body), read_many('#!/usr/bin/env wal\n' + body)
@@ -132,7 +169,6 @@ class C10(framework.PropertyCheck):
                 return {'what': 'reader raised an exception other than the documented parse error', 'text': t, 'exception': r[1]}
         if k == 'evaltop':
             # a literal standing alone at top level evaluates to the value it denotes (also when that value is zero, empty or false)
-            from . import impl
             t, r = res[0]
             if r[0] == 'ok':
                 w = impl.fresh()
